@@ -376,6 +376,63 @@ func run(v avfs.VFS, o opT) result {
 	return r.res
 }
 
+// baseProbes are the cwd-dependent calls made through the wrapper (and on the
+// reference) right after a call on the base has moved the base's cwd: the
+// current directory itself, a relative name made absolute, a relative name
+// resolved.
+var baseProbes = []opT{{Call: "Getwd"}, {Call: "Abs", A: "f"}, {Call: "Stat", A: "f"}}
+
+// runBaseChdir is the operation BaseChdir(d). On the wrapper's side the BASE
+// file system is sent to d with its own Chdir (not through the wrapper); on the
+// reference's side the cwd becomes the virtual counterpart of d: d minus B when
+// d is in B (the reference's own Chdir, which fails as the base's does when the
+// directory is gone), else the virtual root (set directly when the base's
+// Chdir succeeded: a standalone OrefaFS cannot Chdir to its root). The paths in
+// the errors of these two calls are the base's own: not compared. Then
+// baseProbes on both sides.
+func (s *sys) runBaseChdir(d string) (got, want result) {
+	g, w := &runner{}, &runner{}
+
+	g.do("Base", func(*sub) error { return s.base.Chdir(d) })
+
+	virt := "/"
+	if underB(d) && d != basePath {
+		virt = strings.TrimPrefix(d, basePath)
+	}
+
+	if virt == "/" {
+		// The call on the base is the environment, not the subject: its outcome
+		// is taken as it is (an OrefaFS base refuses Chdir("/")).
+		if g.res.Subs[0].Kind == "ok" {
+			_ = s.ref.SetCurDir("/")
+		}
+
+		w.res.Subs = append(w.res.Subs, sub{Label: "Base", Kind: g.res.Subs[0].Kind, Msg: g.res.Subs[0].Msg})
+	} else {
+		w.do("Base", func(*sub) error { return s.ref.Chdir(virt) })
+	}
+
+	g.res.Subs[0].ErrPaths, w.res.Subs[0].ErrPaths = nil, nil
+
+	for _, p := range baseProbes {
+		for side, v := range []avfs.VFS{s.wr, s.ref} {
+			r := run(v, p)
+
+			for _, sb := range r.Subs {
+				sb.Label = strings.TrimSuffix(p.Call+"."+sb.Label, ".")
+
+				if side == 0 {
+					g.res.Subs = append(g.res.Subs, sb)
+				} else {
+					w.res.Subs = append(w.res.Subs, sb)
+				}
+			}
+		}
+	}
+
+	return g.res, w.res
+}
+
 // noSymlinkResult is the answer of a file system that does not advertise
 // FeatSymlink (what OrefaFS answers, what avfs documents for the feature being
 // absent): a permission error carrying the arguments as given, no effect.
